@@ -18,7 +18,8 @@ USERS = [  # name, uid, gid, extra groups
     ("gidzero", 1003, 0, []),       # uid != 0 but primary gid 0
     ("Ünï", 1004, 1004, ["vfstaff"]),  # non-ASCII user name
 ]
-GROUPS = [("root", 0), ("alice", 1001), ("bob", 1002), ("uni", 1004), ("vfstaff", 2000)]
+GROUPS = [("root", 0), ("alice", 1001), ("bob", 1002), ("uni", 1004), ("vfstaff", 2000),
+          ("g", 1003)]      # no members; its gid is the uid of 'gidzero' (whose primary group is root)
 
 
 def build_helper():
